@@ -109,7 +109,13 @@ def k6(P, cls, obj, wire):
         return
     from checks import regions
     with P.scope():
-        regions.exclude(P, obj, clause='K6')
+        try:
+            regions.exclude(P, obj, clause='K6')
+        except (E.Infeasible, E.PathEnd):
+            # a listed K6 finding covers every object of this class: the layout is not stated (the finding's witness is
+            # replayed natively on every run); the other clauses of the path go on
+            P.notes.append(('k6-region', 'K6 of %s is a listed known finding for every object of the class' % cls.__name__))
+            return
         vc.oblige_equal(P, 'K6 %s: composed bytes equal the encoding the specification prescribes' % cls.__name__,
                         wire.copy('bytes'), want)
 
